@@ -282,3 +282,5 @@ def make_run(t):
 
 SUBS = [Sub(t, make_run(t), strategy=strategy_for(t), budget=(400, 10000), shards=(1, 4),
             rule=f"{t} blocks with 0..8 (12) items, labels from {ALPHABET}") for t in TYPES]
+from ..core import optimised_child_sub  # noqa: E402
+SUBS.append(optimised_child_sub("C18", ["events", "data3D"]))
